@@ -246,9 +246,12 @@ def check_single_step(case, part="discard"):
 
 
 @st.composite
-def st_single(draw, algos):
+def st_single(draw, algos, close=False):
+    """close=True: regions within a fraction of eps of each other (nothing is discarded, everything can be covered), at least
+    one member of P and a useful set that leaves members of P out - the state in which the useful set has to be rebuilt
+    from all of P."""
     algo = draw(st.sampled_from(algos))
-    K = draw(st.integers(1, 6))
+    K = draw(st.integers(3, 6)) if close else draw(st.integers(1, 6))
     spec = draw(gen_runs.st_run_spec(algo, source="stub" if algo not in () else None, K=K, allow_Kgtm=True))
     if algo == "Auer":
         spec["empirical"] = True
@@ -263,7 +266,7 @@ def st_single(draw, algos):
     regs = []
     scale = eps * draw(st.sampled_from([0.3, 1.0, 3.0]))
     for i in range(K):
-        mode = draw(st.sampled_from(["free", "free", "copy", "along-cone", "touch"])) if regs else "free"
+        mode = draw(st.sampled_from(["copy", "along-cone", "along-cone", "touch"] if close else ["free", "free", "copy", "along-cone", "touch"])) if regs else "free"
         if conf == "rect":
             if mode == "free":
                 r = draw(gr.st_rect(m, scale))
@@ -273,7 +276,7 @@ def st_single(draw, algos):
                 if mode == "copy":
                     sh = np.zeros(m)
                 elif mode == "along-cone":
-                    sh = u * draw(st.sampled_from([-1, 1])) * eps * draw(st.sampled_from([0.5, 0.99, 1.01, 2.0, 5.0]))
+                    sh = u * draw(st.sampled_from([-1, 1])) * eps * draw(st.sampled_from([0.1, 0.3, 0.5] if close else [0.5, 0.99, 1.01, 2.0, 5.0]))
                 else:
                     sh = np.zeros(m)
                     k = draw(st.integers(0, m - 1))
@@ -285,10 +288,15 @@ def st_single(draw, algos):
             else:
                 base = regs[draw(st.integers(0, len(regs) - 1))]
                 c = np.array(base["c"])
-                sh = np.zeros(m) if mode == "copy" else u * draw(st.sampled_from([-1, 1])) * eps * draw(st.sampled_from([0.5, 0.99, 1.01, 2.0, 5.0]))
+                sh = np.zeros(m) if mode == "copy" else u * draw(st.sampled_from([-1, 1])) * eps * draw(
+                    st.sampled_from([0.1, 0.3, 0.5] if close else [0.5, 0.99, 1.01, 2.0, 5.0]))
                 r = dict(base, c=(c + sh).tolist())
         regs.append(r)
     ints = st.integers(0, 5)
+    if close:
+        order = draw(st.permutations(list(range(K))))
+        nS = draw(st.integers(1, K - 1))
+        return {"spec": spec, "regions": regs, "S": list(order[:nS]), "P": list(order[nS:]), "U": draw(st.lists(st.sampled_from(list(order[nS:])), max_size=1))}
     return {"spec": spec, "regions": regs, "S": draw(st.lists(ints, min_size=1, max_size=6)), "P": draw(st.lists(ints, max_size=4)),
             "U": draw(st.lists(ints, max_size=4))}
 
